@@ -157,6 +157,12 @@ def run(tier):
             rules.update(e[1] for e in r["evs"] if e[0] == "reduce")
         check.cov["grammar_rules_reduced_%s" % family] = "%d of %d" % (len(rules), max(nrules - 1, 0))
         check.cov["grammar_rules_never_reduced_%s" % family] = [i for i in range(1, nrules) if i not in rules][:400]
+    # programs nested a dozen and more blocks deep (the scanner's call stack, the parser's state stack and the visitors' recursion
+    # have thresholds of their own): accepted, with the prescribed tree
+    for family in ("7", "5"):
+        res = progs.deep_programs(check, wp, family, core.seed(), 60 if tier == "quick" else 600)
+        classify(check, res, None)
+        check.cov["deep_programs_%s" % family] = len(res)
     # a sequence of two valid statements is accepted and is the two statements
     for family in ("7", "5"):
         for a, b, ver, what, detail in progs.statement_pairs(check, wp, family, core.seed(), 20000 if tier == "quick" else 300000):
